@@ -61,6 +61,9 @@ def query_job(e, p):
         if m is not None:
             report(e, 'wrong-answer', what='%s = %s contradicts the definition' % (name, observed), case=case(m), query=name, observed=str(observed))
     wp = node_walk(e, nodes, h)
+    # --- depth on the fresh object (before any counting call has filled a memo table), asked again at the end
+    d0 = e.call('obdd::Bdd::max_depth', [rb, e.copyval(f)])
+    if d0 != wp[2]: expect('max_depth(fresh)', True, d0)
     # --- path counts, depth
     for memo in (True, False):
         pc_ = mc(e.call('obdd::Bdd::paths', [rb, e.copyval(f), memo]))
@@ -167,6 +170,7 @@ def judge_queries(out, case):
     probs = []
     for memo in ('true', 'false'):
         if tuple(out['paths'][memo]) != wp[:2]: probs.append('paths(memo=%s) = %s, diagram has %s' % (memo, out['paths'][memo], wp[:2]))
+    if out['max_depth_fresh'] != wp[2]: probs.append('max_depth on the fresh object = %d, longest path = %d' % (out['max_depth_fresh'], wp[2]))
     if out['max_depth'] != wp[2]: probs.append('max_depth = %d, longest path = %d' % (out['max_depth'], wp[2]))
     for memo in (['false', 'true'] if works_memo_models(feats) else ['false']):
         for name in ('models', 'formulacounts'):
@@ -222,6 +226,7 @@ def run_concrete(eng, case):
     rb = Ref([bdd], 0); acs = adf.f[eng.field('Adf', 'ac')]; f = acs.items[fi]
     sl = SliceRef(acs.items, 0, len(acs.items))
     out = {'handle': tv(f), 'paths': {}, 'models': {}, 'formulacounts': {}}
+    out['max_depth_fresh'] = eng.call('obdd::Bdd::max_depth', [rb, eng.copyval(f)])
     for memo in (True, False):
         out['paths'][str(memo).lower()] = list(mc(eng.call('obdd::Bdd::paths', [rb, eng.copyval(f), memo])))
         out['models'][str(memo).lower()] = list(mc(eng.call('obdd::Bdd::models', [rb, eng.copyval(f), memo])))
